@@ -184,7 +184,7 @@ func trailer(e *env, fn, ctor *core.Fn) ast.Expr {
 				}
 				return w
 			}
-			if sel, ok := ast.Unparen(call.Fun).(*ast.SelectorExpr); ok && f.Name() == "Write" && ref(sel.X) == wsink && len(call.Args) == 1 {
+			if sel := funSel(info, wf.Decl.Body, call); sel != nil && f.Name() == "Write" && ref(sel.X) == wsink && len(call.Args) == 1 {
 				w := &wr{call: call, kind: "data", order: "LittleEndian"}
 				if sc := digestCall(call.Args[0], "Sum"); sc != nil {
 					w.kind, w.sumAt = "checksum", sc // little-endian by R2.state/Sum-little-endian
@@ -295,7 +295,8 @@ func trailer(e *env, fn, ctor *core.Fn) ast.Expr {
 		if !ok {
 			return true
 		}
-		sel, isSel := ast.Unparen(call.Fun).(*ast.SelectorExpr)
+		sel := funSel(info, fn.Decl.Body, call)
+		isSel := sel != nil
 		for _, u := range under {
 			if isSel && ref(sel.X) == u && strings.HasPrefix(sel.Sel.Name, "Write") {
 				bypass = append(bypass, c.Src(call))
